@@ -92,7 +92,7 @@ def make_case(tier, seed, index):
                 faults.append(symbol_fault(rnd.choice(enabled), tr, tau, rnd) if rnd.random() < 0.7 else {"k": "ok"})
         connects = []
         if tr == "tcp" and rnd.random() < 0.3:
-            connects = [connect_outcome(rnd.choice(["refused", "unreach", "hang", "ok_slow"]), rnd)
+            connects = [connect_outcome(rnd.choice(["refused", "unreach", "hang", "ok_slow", "ok_late", "ok_sockopt", "ok_sockopt"]), rnd)
                         for _ in range(rnd.randint(1, 2))]
         elif tr == "udp" and rnd.random() < 0.1:
             connects = [{"k": "sockerr", "errno": 101}]
